@@ -25,8 +25,11 @@ pub mod c02;
 pub mod c03;
 pub mod c06;
 pub mod c07;
+pub mod c11;
 pub mod c14;
 pub mod c15;
+pub mod c16;
+pub mod c17;
 
 /// Boolean formulas over scalars; the claim language shared by both modes.
 #[derive(Clone)]
@@ -113,8 +116,11 @@ pub fn select(property: &str, tier: Tier, seed: u64) -> Vec<Case> {
         "C03" => c03::cases(tier, seed),
         "C06" => c06::cases(tier, seed),
         "C07" => c07::cases(tier, seed),
+        "C11" => c11::cases(tier, seed),
         "C14" => c14::cases(tier, seed),
         "C15" => c15::cases(tier, seed),
+        "C16" => c16::cases(tier, seed),
+        "C17" => c17::cases(tier, seed),
         _ => Vec::new(),
     }
 }
